@@ -43,6 +43,8 @@ func init() {
 		RegisterScenario(&Scenario{Name: "c11/noinit-" + m, Run: func(p []int, _ []vsched.ChoicePoint) explore.Outcome { return c11Run(p, "noinit-"+m) },
 			Doc: "as reopen-" + m + ", by a peer that never sent notifications/initialized"})
 	}
+	RegisterScenario(&Scenario{Name: "c11/roots-reopen", Run: func(p []int, _ []vsched.ChoicePoint) explore.Outcome { return c11Run(p, "roots-reopen") },
+		Doc: "roots/list delivered on stream #2 is still unanswered when the client opens stream #3; the answer arrives by POST; ListRoots returns it"})
 	RegisterScenario(&Scenario{Name: "c11/triple", Run: func(p []int, m []vsched.ChoicePoint) explore.Outcome { return c11Run(p, "triple") },
 		Doc: "GET#1 registered; GET#2 || GET#3 opened concurrently; sends at quiescence must reach the surviving stream"})
 	RegisterCheck("C11", func(c *Ctx) {
@@ -53,6 +55,7 @@ func init() {
 		c.DFSBoth("c11/reopen-send", explore.Bounds{Preempt: pb, Dev: 2}, 2)
 		c.DFSBoth("c11/reopen-roots", explore.Bounds{Preempt: pb, Dev: 2}, 1)
 		c.DFSBoth("c11/reopen-close1", explore.Bounds{Preempt: pb, Dev: 2}, 1)
+		c.DFSBoth("c11/roots-reopen", explore.Bounds{Preempt: pb, Dev: 1, MaxExec: c.Pick(8000, 300000)}, 1)
 		c.DFSBoth("c11/noinit-send", explore.Bounds{Preempt: pb, Dev: 1, MaxExec: c.Pick(8000, 300000)}, 1)
 		c.DFSBoth("c11/noinit-roots", explore.Bounds{Preempt: pb, Dev: 1, MaxExec: c.Pick(8000, 300000)}, 1)
 		c.DFSBoth("c11/resume-send", explore.Bounds{Preempt: pb, Dev: 1, MaxExec: c.Pick(8000, 300000)}, 1)
@@ -265,6 +268,28 @@ func c11Run(prefix []int, mode string) explore.Outcome {
 				}
 				peer.Post(sid, fmt.Sprintf(`{"jsonrpc":"2.0","id":%s,"result":{"roots":[{"uri":"file:///r","name":"r"}]}}`, id))
 			})
+		case "roots-reopen":
+			// a request the server issued on stream #2 is still unanswered when the client reopens its
+			// listening stream once more; the answer then arrives by POST as always
+			srvctx := hx.SessionCtx(srv, sid)
+			vsched.Go("sender", func() {
+				g2.Wait("await GET#2 headers")
+				roots, rootsErr = srv.ListRoots(srvctx)
+				sent.Set()
+			})
+			vsched.Go("reopen-then-answer", func() {
+				g2.Wait("await GET#2 headers")
+				id := hx.AwaitRequestID(x2, "roots/list")
+				if id == "" {
+					return
+				}
+				_, x, err := peer.Open(context.Background(), http.MethodGet, peer.URL, sid, nil, nil)
+				if err != nil {
+					obs.Add("get3-err:%v", err)
+				}
+				x3 = x
+				peer.Post(sid, fmt.Sprintf(`{"jsonrpc":"2.0","id":%s,"result":{"roots":[{"uri":"file:///r","name":"r"}]}}`, id))
+			})
 		case "triple":
 			vsched.Go("get3", func() {
 				_, x, err := peer.Open(context.Background(), http.MethodGet, peer.URL, sid, nil, nil)
@@ -328,7 +353,7 @@ func c11Run(prefix []int, mode string) explore.Outcome {
 					viol = append(viol, V("send-on-old-stream", "notification sent after GET#2 headers appeared on the old stream"))
 				}
 			}
-		case "roots":
+		case "roots", "roots-reopen":
 			if !sent.Get() {
 				viol = append(viol, V("roots-hangs", "ListRoots did not return (blocked: %v)", vsched.LiveThreads()))
 			} else if rootsErr != nil {
@@ -337,7 +362,7 @@ func c11Run(prefix []int, mode string) explore.Outcome {
 				viol = append(viol, V("roots-wrong", "ListRoots returned %+v", roots))
 			}
 		}
-		if mode != "triple" {
+		if mode != "triple" && mode != "roots-reopen" {
 			if !x1.HandlerDone {
 				viol = append(viol, V("old-stream-open", "stream #1 was not closed after GET#2"))
 			}
